@@ -18,12 +18,14 @@ import (
 // head:   adm mp=<config.MaxPeers> ip=<config.MaxPeersPerIP> D=<ban duration in clock units>
 // events: A<k>.<pid>.<h>   a NEW peer object <pid> of kind k (i inbound, o outbound, p persistent
 //                          outbound) from host <h> is delivered to handleAddPeerMsg
-//         X.<pid>          peer object <pid> is delivered to handleDonePeerMsg
+//         C.<pid>          the connection of peer object <pid> drops (peer.Disconnect())
+//         X.<pid>          peer object <pid> is delivered to handleDonePeerMsg (in production only
+//                          after its connection dropped: scripts of the reachable alphabet put C first)
 //         B<h>             a peer of host <h> is delivered to handleBanPeerMsg
 //         T<n>             n clock units pass
 // host h has IP 45.(10+h/3).(1+h%3).9, hence outbound group h/3 ("45.(10+h/3).0.0").
 //
-// observable: one word per event, "<tag>:<state>" with tag a<decision><Connected()> | x | b | t | ?
+// observable: one word per event, "<tag>:<state>" with tag a<decision><Connected()> | c | x | b | t | ?
 // and state = n<Count()>/I<inbound pids>/O<outbound pids>/P<persistent pids>/H<host:connectionCount,..>
 // /G<group:outboundGroups,..>/B<host:remaining ban units,..> (bans still in force); zero counters are not printed,
 // everything is sorted.  pids are the case's logical pids (the harness maps peer.ID() back).
@@ -203,6 +205,17 @@ func c18RunAdm(head []string, evs []string) (obs string) {
 			added[pid] = true
 			d := a.Add(h)
 			return fmt.Sprintf("a%d%d", b2i(d), b2i(a.Connected(h)))
+		case strings.HasPrefix(e, "C."):
+			pid, err := strconv.Atoi(e[2:])
+			if err != nil {
+				return "?"
+			}
+			h, ok := get(pid)
+			if !ok {
+				return "?"
+			}
+			a.Disconnect(h)
+			return "c"
 		case strings.HasPrefix(e, "X."):
 			pid, err := strconv.Atoi(e[2:])
 			if err != nil {
@@ -298,7 +311,7 @@ func c18GenAdm(c *Ctx) error {
 			}
 		}
 		for p := 1; p <= nadd; p++ {
-			r = append(r, fmt.Sprintf("X.%d", p))
+			r = append(r, fmt.Sprintf("C.%d", p), fmt.Sprintf("X.%d", p))
 		}
 		for _, h := range hosts {
 			r = append(r, fmt.Sprintf("B%d", h))
@@ -310,7 +323,7 @@ func c18GenAdm(c *Ctx) error {
 	reduced := func(nadd int) []string {
 		r := []string{"Ai.0", "Ao.0", "Ao.1", "B0", "T10"}
 		if nadd >= 1 {
-			r = append(r, "X.1")
+			r = append(r, "C.1", "X.1")
 		}
 		if nadd >= 2 {
 			r = append(r, fmt.Sprintf("X.%d", nadd))
@@ -318,6 +331,22 @@ func c18GenAdm(c *Ctx) error {
 		return r
 	}
 	rec(nil, 0, c.Pick(5, 6), reduced, "exhaustive-reduced")
+	// every processing order of one peer's Add / connection drop / Done, around a second peer of
+	// the same host (the Done-before-Add race of peerHandler's select)
+	for _, k := range "iop" {
+		trio := []string{fmt.Sprintf("A%c.1.0", k), "C.1", "X.1"}
+		perms := [][]int{{0, 1, 2}, {0, 2, 1}, {1, 0, 2}, {1, 2, 0}, {2, 0, 1}, {2, 1, 0}}
+		for _, pm := range perms {
+			base := []string{trio[pm[0]], trio[pm[1]], trio[pm[2]]}
+			emit(base, "add-drop-done-orders")
+			for pos := 0; pos <= 3; pos++ {
+				for _, other := range []string{"Ao.2.0", "Ai.2.1", "B0"} {
+					evs := append(append(append([]string{}, base[:pos]...), other), base[pos:]...)
+					emit(append(evs, "C.2", "X.2", "Ai.3.0"), "add-drop-done-orders")
+				}
+			}
+		}
+	}
 
 	// (2) seeded random sequences
 	kinds := "ioooiip"
@@ -331,7 +360,15 @@ func c18GenAdm(c *Ctx) error {
 				nadd++
 				evs = append(evs, fmt.Sprintf("A%c.%d.%d", kinds[c.Rng.Intn(len(kinds))], nadd, c.Rng.Intn(nh)))
 			case r < pAdd+pDone && nadd > 0:
-				evs = append(evs, fmt.Sprintf("X.%d", 1+c.Rng.Intn(nadd)))
+				p := 1 + c.Rng.Intn(nadd)
+				switch c.Rng.Intn(10) {
+				case 0:
+					evs = append(evs, fmt.Sprintf("C.%d", p)) // dropped, Done still to come
+				case 1:
+					evs = append(evs, fmt.Sprintf("X.%d", p)) // Done alone (the drop happened earlier, or never)
+				default:
+					evs = append(evs, fmt.Sprintf("C.%d", p), fmt.Sprintf("X.%d", p))
+				}
 			case r < pAdd+pDone+pBan:
 				evs = append(evs, fmt.Sprintf("B%d", c.Rng.Intn(nh)))
 			default:
@@ -355,7 +392,8 @@ func c18GenAdm(c *Ctx) error {
 	for i, n := 0, c.Pick(100, 2000); i < n; i++ {
 		evs := randSeq(6+c.Rng.Intn(10), 2, 0.6, 0.3, 0.05, []int{10})
 		j := c.Rng.Intn(len(evs))
-		evs = append(evs[:j:j], append([]string{fmt.Sprintf("X.%d", 1+c.Rng.Intn(6))}, evs[j:]...)...)
+		q := 1 + c.Rng.Intn(6)
+		evs = append(evs[:j:j], append([]string{fmt.Sprintf("C.%d", q), fmt.Sprintf("X.%d", q)}, evs[j:]...)...)
 		emit(evs, "done-before-add")
 	}
 	// total limit: more than MaxPeers adds over many hosts, then churn
